@@ -106,6 +106,8 @@ RuleRoundTrip == (WDone /\ res = "ok") => UnparseRule(acc) = toks /\ ParseRule(U
 (* Part B: channels, spellings, damages *)
 Channels == {"str", "slice", "reader", "value", "json_slice", "json_reader", "json_tree", "jsonpretty_reader"}
 Spellings6 == {"plain", "ws", "uescape", "trailing_garbage", "concatenated", "truncated"}
+\* texts padded with characters that are NOT JSON white space (form feed, vertical tab, no-break space, BOM, NUL)
+PaddedSpellings == {"pad_ff", "pad_vt", "pad_nbsp", "pad_bom", "pad_nul"}
 \* a text in which a member occurs twice is no tree: on such texts only the text channels are compared (with each
 \* other and with the type's own byte entry point, e.g. MetadataWrapper::try_from_bytes)
 TextChannels == Channels \ {"value", "json_tree"}
